@@ -3,21 +3,21 @@ import threading
 
 import miros.activeobject as AO
 from miros.event import Event
-from vt import detsched as ds, aosim
+from vt import detsched as ds, aosim, sysx
 
 ID = 'C05'
 ENGINE = 'detsched'
-TECHNIQUE = 'runtime monitoring under a deterministic cooperative scheduler: bounded-progress monitor (fair round-robin suffix, step budget) and exact deadlock detection at quiescence'
-RULE = ('a started ActiveObject (spied or not, instrumented or not, live spy/trace output on in a share of the spied runs) and 1-4 poster threads x 1-6 unique-id events (fifo/lifo mixed, handlers that post further events), all real '
+TECHNIQUE = 'runtime monitoring under a deterministic cooperative scheduler: bounded-progress monitor (fair round-robin suffix, step budget) and exact deadlock detection at quiescence; a few small scenarios per run are enumerated systematically (every schedule within a delay bound, vt/sysx.py)'
+RULE = ('a started ActiveObject (spied or not, instrumented or not, live spy/trace output on in a share of the spied runs) and 1-4 poster threads x 1-6 unique-id events (fifo/lifo mixed, handlers that post further events; in 15% of the runs the pending-event queue has capacity 2-4 instead of 500 and the posters race at and beyond a FULL queue), all real '
         'threads run one at a time by detsched with yield points at every line of miros/activeobject.py and of the queue functions of '
         'miros/hsm.py and around every Queue/Thread primitive; seeded random or PCT schedule prefix, then FAIR round-robin; every post must '
         'return and the system must reach quiescence (posters finished, consumer waiting, queue empty) within B = 40000 + 3000 x events '
         'yield points (correct runs need < 3000); a quiescent state with a blocked poster is a deadlock. Liveness is decided in this '
         'bounded-progress form only. distinct_nontrivial = distinct context-switch sequences (projected on thread roles and locations) of '
-        'runs with >= 2 posters or >= 1 handler post')
+        'runs with >= 2 posters or >= 1 handler post. ' + sysx.RULE_TEXT % (1, 2))
 CASES = {'quick': 800, 'thorough': 60000}
-BUDGET = {'quick': 150, 'thorough': 300}
-REQUIRE = {'runs': 300, 'runs_with_racing_posters': 100, 'runs_with_live_output_on': 40, 'poster_between_token_put_and_append': 20, 'consumer_between_get_and_popleft': 20}
+BUDGET = {'quick': 150, 'thorough': 600}
+REQUIRE = {'runs': 300, 'runs_with_racing_posters': 100, 'runs_with_live_output_on': 40, 'runs_with_small_queue_capacity': 50, 'systematic_schedules': 100, 'poster_between_token_put_and_append': 20, 'consumer_between_get_and_popleft': 20}
 ASSUME = ['"eventually" is restated as bounded progress under a fair suffix; unbounded liveness is out of reach of a finite run',
           'switches happen at line starts of the focus files and around (never inside) calls of real primitives']
 ANNOUNCE_CASES = True
@@ -55,7 +55,18 @@ def run_scenario(ctx, rng, plans, fan, nev, spied, instrumented, check=None, ext
   aosim.install(s)
   result = {'verdict': None}
   try:
-    ao = aosim.make_ao(hist, instrumented=instrumented)
+    cap = (extras or {}).get('capacity')
+    if cap:
+      # a small pending-event queue (capacity 2-4 instead of 500): the posters race at and beyond a FULL queue
+      import miros.hsm as _H
+      saved_cap = _H.HsmWithQueues.QUEUE_SIZE
+      _H.HsmWithQueues.QUEUE_SIZE = cap
+      try:
+        ao = aosim.make_ao(hist, instrumented=instrumented)
+      finally:
+        _H.HsmWithQueues.QUEUE_SIZE = saved_cap
+    else:
+      ao = aosim.make_ao(hist, instrumented=instrumented)
     st = aosim.make_state(hist, fan, spied)
     live = (extras or {}).get('live')
     if live:
@@ -120,21 +131,37 @@ def run_scenario(ctx, rng, plans, fan, nev, spied, instrumented, check=None, ext
       ctx.count('zombie_threads', z)
 
 
+SYS = {'quick': (2, 1, 2000, 45.0), 'thorough': (32, 2, 100000, 150.0)}
+
+
 def run_case(ctx, n):
+  sysx.run_case(ctx, n, SYS, scenario)
+
+
+def scenario(ctx, n):
   rng = ctx.rng('case', n)
   plans, fan, nev = gen_plan(rng)
+  if getattr(ctx, 'small', False):
+    # systematic exploration: two posters with one event each (one of them lifo in half of the scenarios), no handler posts
+    plans, fan, nev = [[('fifo', 1)], [(rng.choice(['fifo', 'lifo']), 2)]], {}, 2
   spied, instrumented = rng.random() < 0.5, rng.random() < 0.7
   extras = None
   if spied and instrumented and rng.random() < 0.45:
     # live spy / live trace output switched on: the consumer hands every line of a finished step to the writer thread
     extras = {'live': (True, rng.random() < 0.5)}
     ctx.count('runs_with_live_output_on')
+  if not getattr(ctx, 'small', False) and rng.random() < 0.15:
+    # posters racing at a full queue: capacity 2-4, three events per planned post
+    extras = dict(extras or {}, capacity=rng.choice([2, 3, 4]))
+    plans = [[(k, u * 10 + j) for j in range(3)] for pl in plans for (k, u) in pl][:4]
+    fan, nev = {}, sum(len(p) for p in plans)
+    ctx.count('runs_with_small_queue_capacity')
   result, s, hist, ao = run_scenario(ctx, rng, plans, fan, nev, spied, instrumented, extras=extras)
   ctx.count('runs')
   if len(plans) >= 2:
     ctx.count('runs_with_racing_posters')
   ctx.maxc('max_steps_of_a_completed_run', result.get('steps', 0))
-  wit = {'plans': plans, 'fan': fan, 'spied': spied, 'instrumented': instrumented, 'live_output': (extras or {}).get('live'), 'policy': s.policy, 'p_switch': s.p_switch,
+  wit = {'plans': plans, 'fan': fan, 'spied': spied, 'instrumented': instrumented, 'live_output': (extras or {}).get('live'), 'queue_capacity': (extras or {}).get('capacity') or 500, 'policy': s.policy, 'p_switch': s.p_switch,
          'rr_after': s.rr_after, 'switch_trail_tail': s.trail[-25:]}
   if len(plans) >= 2 or fan:
     ctx.distinct(s.signature())
